@@ -99,11 +99,42 @@ func genIdemUpdate(r *rng, d bson.D) bson.D {
 		}
 		pairs = append(pairs, bson.E{Key: p, Value: arg})
 	}
+	if len(pairs) > 0 && r.chance(1, 4) {
+		// a path related to one already named: equal, prefix, extension, positional against fixed, sibling
+		q := relatedPath(r, pairs[r.intn(len(pairs))].Key)
+		cur := bsonkit.Get(&d, strings.ReplaceAll(q, "$[]", "0"))
+		arg := genOpArg(r, op, cur, d)
+		if _, isDoc := arg.(bson.D); isDoc && op == "$pull" {
+			arg = genSmall(r)
+		}
+		if r.chance(1, 2) {
+			pairs = append(pairs, bson.E{Key: q, Value: arg})
+		} else {
+			pairs = append(bson.D{{Key: q, Value: arg}}, pairs...)
+		}
+	}
 	return bson.D{{Key: op, Value: pairs}}
 }
 
+// conflictSignature: the kind of static path conflict of an update that
+// MongoDB rejects (ConflictingUpdateOperators): a positional operator against
+// a fixed segment of the same array, or equal / prefix paths.
+func conflictSignature(u bson.D) (string, string, bool) {
+	p, q, ok := staticConflict(u)
+	if !ok {
+		return "", "", false
+	}
+	a, b := strings.Split(p, "."), strings.Split(q, ".")
+	for k := 0; k < len(a) && k < len(b); k++ {
+		if a[k] != b[k] {
+			return sigPositionalIndex, "an update that names " + p + " and " + q + " (a positional operator and a fixed segment of one array) is accepted; MongoDB rejects it (ConflictingUpdateOperators)", true
+		}
+	}
+	return sigNoopConflict, "an update whose paths conflict (" + p + " / " + q + ") is accepted; MongoDB rejects it statically (ConflictingUpdateOperators), whatever the document holds", true
+}
+
 func oracleIdempotence(r *rng, n int, st *oracleStats) []oracleFailure {
-	st.Rule = "documents x one operator of {$set,$unset,$min,$max,$addToSet,$pull,$pullAll} on 1-3 paths (dotted, positional $[], missing, beyond the end, condition documents for $pull); the update is applied to a clone, then applied again to a clone of the result; the second result must be byte-identical (bson.Marshal) to the first; non-trivial = the first application changed the document"
+	st.Rule = "documents x one operator of {$set,$unset,$min,$max,$addToSet,$pull,$pullAll} on 1-4 paths (dotted, positional $[], missing, beyond the end, condition documents for $pull; in a quarter of the updates one path is related to another: equal, prefix, extension, positional against fixed segment, sibling, aliasing index); an update whose named paths conflict (equal, segment prefix, or positional operator against fixed segment below a common prefix) must be rejected whatever the document; otherwise it is applied to a clone, then applied again to a clone of the result; the second result must be byte-identical (bson.Marshal) to the first, or the second application is rejected; non-trivial = the first application changed the document or the update was rejected for a conflict"
 	sink := &failSink{}
 	for i := 0; i < n; i++ {
 		d := genApplyDoc(r, 2, r.chance(1, 3))
@@ -115,6 +146,15 @@ func oracleIdempotence(r *rng, n int, st *oracleStats) []oracleFailure {
 		_, err, pan := safeApply(ac)
 		if pan {
 			st.Dist[op+":panic"]++
+			continue
+		}
+		if sig, what, conflict := conflictSignature(u); conflict {
+			// acceptance must not depend on the document: rejected, always
+			if err != nil {
+				st.Dist[op+":conflict-rejected"]++
+				continue
+			}
+			sink.add(sig, what, []string{enc(d), enc(u), enc(d1)})
 			continue
 		}
 		if err != nil {
@@ -149,6 +189,52 @@ func oracleIdempotence(r *rng, n int, st *oracleStats) []oracleFailure {
 		}
 	}
 	return sink.fails
+}
+
+// updatePaths: the paths an update names (every field of every operator
+// document; for $rename also the target), independent re-statement of the
+// rule of MongoDB's ConflictingUpdateOperators check.
+func updatePaths(u bson.D) []string {
+	var out []string
+	for _, e := range u {
+		pairs, ok := e.Value.(bson.D)
+		if !ok || !strings.HasPrefix(e.Key, "$") {
+			continue
+		}
+		for _, p := range pairs {
+			out = append(out, p.Key)
+			if t, ok := p.Value.(string); ok && e.Key == "$rename" {
+				out = append(out, t)
+			}
+		}
+	}
+	return out
+}
+
+// pathsConflict: equal, one a segment prefix of the other, or — below a common
+// prefix — a positional operator in one and a fixed segment in the other.
+func pathsConflict(p, q string) bool {
+	a, b := strings.Split(p, "."), strings.Split(q, ".")
+	for k := 0; k < len(a) && k < len(b); k++ {
+		if a[k] == b[k] {
+			continue
+		}
+		return strings.HasPrefix(a[k], "$") != strings.HasPrefix(b[k], "$")
+	}
+	return true
+}
+
+// staticConflict: some two named paths of the update conflict
+func staticConflict(u bson.D) (string, string, bool) {
+	ps := updatePaths(u)
+	for i := range ps {
+		for j := i + 1; j < len(ps); j++ {
+			if pathsConflict(ps[i], ps[j]) {
+				return ps[i], ps[j], true
+			}
+		}
+	}
+	return "", "", false
 }
 
 // classifyNonIdempotent: the two known kinds of accepted-but-conflicting
@@ -622,6 +708,10 @@ func oracleAllOrNothing(r *rng, n int, st *oracleStats) []oracleFailure {
 			}
 			okCount++
 			expect = append(expect, marshal(c))
+		}
+		if sig, what, conflict := conflictSignature(u); conflict && err == nil && !pan {
+			sink.add(sig, "Collection.Update: "+what, []string{enc(u)})
+			continue
 		}
 		if err != nil {
 			st.Dist["rejected"]++
